@@ -16,6 +16,10 @@ CHECKS = {
    technique="z3 sort checking of the independent translation of every stage result (width = dictated width, comp parts/smask partition [0,size)); symbolic execution of comp/slc slicing kernels with symbolic bit positions",
    text="Bounded: for every enumerated tree and every rewrite/eval/slice stage the result has exactly the dictated width and is well-formed; the comp/slc kernels are explored for ALL slice positions 0<=i<j<=16 by forking on z3-backed ints (complete path sets), each path's result checked for exact tiling.",
    note="trusted: vf/trees.width (dictated width), vf/termsmt.T sort/tiling checks, symx proxies; outside: sizes > 128, comp size > 16 in the kernel"),
+ "C13": dict(level="translation_validation", engine="E1", design="DESIGN.md section 4 C13",
+   technique="SMT equivalence (z3) of the translation of the same Python operand objects before and after each consuming operation, for all register values; SMT equivalence of pickled-and-restored objects",
+   text="Bounded translation validation: for every (operand A, operand B, consuming operation) the denotation of the operand objects is proven unchanged for ALL register values (unsat), with size and sign flag compared; every pickled expression/mapper/memory map is proven equivalent to the original and compared by str/size/eq. Single consuming operation per operand; operand shapes from the enumerated family.",
+   note="trusted: z3, vf/termsmt.T; known findings (sign flag of stored/base expressions rewritten by reg.eval and extract_offset) listed in known_findings.json"),
 }
 
 NA_REASON = "check not built yet (construction in progress)"
